@@ -1062,7 +1062,7 @@ def write_turtle(quads, ch, trig, base):
 
 XML_FEATURES = ["x_typed_node", "x_prop_attr", "x_parse_resource", "x_nested_node", "x_collection", "x_lang_inherit",
                 "x_base", "x_id", "x_li", "x_charref", "x_cdata", "x_no_root", "x_default_ns", "x_indent", "x_split_node",
-                "x_type_attr", "x_decl", "x_squote_attr"]
+                "x_type_attr", "x_decl", "x_squote_attr", "x_nested_base"]
 _NCNAME_TAIL = re.compile(r"[A-Za-z_][A-Za-z0-9_.\-]*$")
 _NOT_XML_CHAR = re.compile("[\x00-\x08\x0b\x0c\x0e-\x1f\ufffe\uffff]")
 _LI = re.compile("^" + re.escape(RDF) + r"_([1-9][0-9]*)$")
@@ -1190,12 +1190,14 @@ def write_rdfxml(quads, ch, base):
             nsmap[ns] = names.pop() if names else "n%d" % len(nsmap)
         return nsmap[ns] + ":" + local
 
+    scope = [doc_base]
+
     def ref(iri):
         if ch.flag("rel_iri", 0.4) and not has_dot_segments(iri):
             k = ch.pick(5)
-            rel = show_ref(relativize(parse_ref(doc_base), parse_ref(iri), k))
-            if resolve_str(doc_base, rel) == iri and rel != "":
-                ch.log.append(("rel", k, doc_base, iri, rel))
+            rel = show_ref(relativize(parse_ref(scope[-1]), parse_ref(iri), k))
+            if resolve_str(scope[-1], rel) == iri and rel != "":
+                ch.log.append(("rel", k, scope[-1], iri, rel))
                 return rel
         return iri
 
@@ -1218,6 +1220,26 @@ def write_rdfxml(quads, ch, base):
         pos = list(by_subj.get(s, []))
         ch.shuffle(pos)
         name, attrs = "rdf:Description", []
+        pushed = False
+        if ch.flag("x_nested_base", 0.3 if len(stack) <= 1 else 0.12):
+            # xml:base on a node element, written relative to the base in scope (XML Base: it resolves against the
+            # base of the parent element, not against the document URI); it also governs this element's own rdf:about
+            sb = scope[-1].split("#")[0]
+            r = ch.pick(7)
+            cands = {0: ("", sb), 1: ("#frag", sb), 2: ("sub/", resolve_str(sb, "sub/")), 3: ("../", resolve_str(sb, "../")),
+                     4: ("other/doc.rdf", resolve_str(sb, "other/doc.rdf")), 5: ("../x/y?q=1", resolve_str(sb, "../x/y?q=1"))}
+            if r in cands:
+                text, nb = cands[r]
+            else:
+                nb = ch.choice(BASES[:3])
+                text = show_ref(relativize(parse_ref(sb), parse_ref(nb), ch.pick(4)))
+                if resolve_str(sb, text) != nb:
+                    text = nb
+            if not has_dot_segments(nb):
+                ch.log.append(("res", sb, text, nb)) if text not in ("", "#frag") else None
+                attrs.append(("xml:base", text))
+                scope.append(nb)
+                pushed = True
         # typed node
         types = [(p, o) for p, o in pos if p[1] == RDF_TYPE and o[0] == "I" and xml_split(o[1]) and
                  o[1] not in (RDF + "Description", RDF + "RDF", RDF + "li") and not o[1].startswith(RDF)]
@@ -1227,8 +1249,8 @@ def write_rdfxml(quads, ch, base):
             name = qn(t[1][1])
         if s[0] == "I":
             idm = None
-            if s[1].startswith(doc_base.split("#")[0] + "#"):
-                frag = s[1][len(doc_base.split("#")[0]) + 1:]
+            if s[1].startswith(scope[-1].split("#")[0] + "#"):
+                frag = s[1][len(scope[-1].split("#")[0]) + 1:]
                 if re.fullmatch(r"[A-Za-z_][A-Za-z0-9_.\-]*", frag) and frag not in used_ids:
                     idm = frag
             if idm and ch.flag("x_id", 0.6):
@@ -1300,6 +1322,8 @@ def write_rdfxml(quads, ch, base):
                         el.kids.append(_El(pname, [], [node(o, lang_scope, stack | {o})]))
                 else:
                     el.kids.append(_El(pname, [("rdf:nodeID", labels[o])]))
+        if pushed:
+            scope.pop()
         return el
 
     # ---- which blank nodes are anonymous (nested once), which lists use parseType="Collection"
@@ -1412,7 +1436,8 @@ def write_rdfxml(quads, ch, base):
     decl = ""
     if ch.flag("x_decl", 0.6):
         decl = ch.choice(['<?xml version="1.0" encoding="utf-8"?>', "<?xml version='1.0'?>", '<?xml version="1.0" encoding="UTF-8" standalone="yes"?>']) + "\n"
-    single = len(elements) == 1 and ch.flag("x_no_root", 0.3)
+    single = len(elements) == 1 and ch.flag("x_no_root", 0.3) and \
+        not any(a in ("xml:base", "xml:lang") for a, _ in elements[0].attrs)    # (the root attributes go on that element)
     body = [ser(e, 0 if single else 1) for e in elements]
     rootattrs = []
     for ns, pfx in nsmap.items():
